@@ -10,8 +10,10 @@ package c18
 // SetImmutable step nothing may change any more.
 
 import (
+	"bytes"
 	"fmt"
 	"runtime"
+	"sort"
 	"sync"
 	"sync/atomic"
 
@@ -24,7 +26,10 @@ import (
 
 // RAct is one action of a reader's repeating pattern.
 type RAct struct {
-	A    string `json:"a"`              // get contains iter misc
+	A    string `json:"a"`              // get contains iter probe misc
+	T    int    `json:"t,omitempty"`    // probe: first Seek target
+	N    int    `json:"n,omitempty"`    // probe: number of Seeks on one iterator
+	S    int    `json:"s,omitempty"`    // probe: target stride
 	K    int    `json:"k,omitempty"`    // key index (get, contains)
 	Ad   bool   `json:"adapter,omitempty"`
 	Acts []Act  `json:"acts,omitempty"` // iter: positioning+scan actions on ONE iterator
@@ -42,7 +47,7 @@ type CCase struct {
 }
 
 func genCCase(t *rapid.T) CCase {
-	c := CCase{Keys: gen.Keys(t, 2, 12)}
+	c := CCase{Keys: expandKeys(gen.Keys(t, 2, 12), rapid.IntRange(0, 3).Draw(t, "keymult"))}
 	nk := len(c.Keys)
 	ntg := len(targets(c.Keys))
 	hot := []int{rapid.IntRange(0, nk-1).Draw(t, "hot0")}
@@ -107,7 +112,14 @@ func genCCase(t *rapid.T) CCase {
 	c.Burst = rapid.SampledFrom([]int{0, 0, 1, 3, 16, 64}).Draw(t, "burst")
 	ract := rapid.Custom(func(t *rapid.T) RAct {
 		a := RAct{Y: rapid.SampledFrom([]int{0, 0, 0, 1, 3}).Draw(t, "y")}
-		switch rapid.SampledFrom([]string{"seek", "seek", "seek", "seek", "get", "get", "contains", "full", "iter", "misc"}).Draw(t, "ra") {
+		switch rapid.SampledFrom([]string{"probe", "probe", "probe", "probe", "probe", "seek", "seek", "get", "get", "contains", "full", "iter", "misc"}).Draw(t, "ra") {
+		case "probe":
+			// many Seeks on ONE iterator (no lock taken between them), each
+			// judged in O(log n): the hot loop that overlaps the writer
+			a.A = "probe"
+			a.T = rapid.IntRange(0, ntg-1).Draw(t, "target")
+			a.N = rapid.IntRange(8, 64).Draw(t, "n")
+			a.S = rapid.IntRange(0, 7).Draw(t, "stride")
 		case "get":
 			a.A, a.K = "get", rapid.IntRange(0, nk-1).Draw(t, "k")
 		case "contains":
@@ -132,6 +144,78 @@ func genCCase(t *rapid.T) CCase {
 	})
 	c.R = rapid.SliceOfN(rapid.SliceOfN(ract, 1, 5), 1, 8).Draw(t, "readers")
 	return c
+}
+
+// expandKeys multiplies a key pool: every key also with 1..mult one-byte
+// suffixes (more distinct keys = more distinct tower positions).
+func expandKeys(base [][]byte, mult int) [][]byte {
+	seen := map[string]bool{}
+	var out [][]byte
+	add := func(k []byte) {
+		if len(k) > 4096 || seen[string(k)] {
+			return
+		}
+		seen[string(k)] = true
+		out = append(out, k)
+	}
+	for _, k := range base {
+		add(k)
+		for j := 0; j < mult; j++ {
+			add(append(append([]byte{}, k...), byte('0'+j)))
+		}
+	}
+	sort.Slice(out, func(i, j int) bool { return bytes.Compare(out[i], out[j]) < 0 })
+	return out
+}
+
+// prec: from history position idx on, the first entry (in iteration order)
+// at or after a Seek target that a reader must see is sorted[pos].
+type prec struct{ idx, pos int }
+
+// probeIndex precomputes, per Seek target used by a probe action, the list of
+// prec records (idx ascending, pos descending).
+func probeIndex(c *CCase, v *tview, tg [][]byte) map[int][]prec {
+	used := map[int]bool{}
+	for _, pat := range c.R {
+		for _, a := range pat {
+			if a.A == "probe" {
+				for j := 0; j < a.N; j++ {
+					used[(a.T+j*a.S)%len(tg)] = true
+				}
+			}
+		}
+	}
+	posOf := make([]int, len(v.ents))
+	for pos, p := range v.sorted {
+		posOf[p] = pos
+	}
+	out := map[int][]prec{}
+	for t := range used {
+		lo := sort.Search(len(v.sorted), func(p int) bool {
+			return bytes.Compare(v.keys[v.ents[v.sorted[p]].k], tg[t]) >= 0
+		})
+		var recs []prec
+		cur := -1
+		for p := range v.ents {
+			if posOf[p] >= lo && (cur < 0 || posOf[p] < cur) {
+				cur = posOf[p]
+				recs = append(recs, prec{v.ents[p].idx, cur})
+			}
+		}
+		out[t] = recs
+	}
+	return out
+}
+
+// firstRequired returns the position (into v.sorted) of the first entry a
+// Seek to the target must not skip when everything up to history position lo
+// is visible; -1 = nothing is required.
+func firstRequired(recs []prec, lo int) int {
+	n := sort.Search(len(recs), func(i int) bool { return recs[i].idx > lo })
+	if n == 0 {
+		return -1
+	}
+	return recs[n-1].pos
 }
 
 func classifyConc(c *CCase) []string {
@@ -190,6 +274,7 @@ type cstats struct {
 	maxOverlap  int // writer steps completed during the life of the busiest reader
 	overlapping int // reader actions that started while the writer was running
 	actions     int
+	probes      int
 }
 
 // concView builds the model of the writer history.
@@ -241,7 +326,7 @@ func validCCase(c *CCase) bool {
 			return false
 		}
 		for _, a := range pat {
-			if a.K < 0 || a.K >= len(c.Keys) {
+			if a.K < 0 || a.K >= len(c.Keys) || a.T < 0 || a.T >= ntg || a.N < 0 || a.N > 4096 || a.S < 0 {
 				return false
 			}
 			for _, x := range a.Acts {
@@ -265,6 +350,15 @@ func runConc(c *CCase) (*CFail, cstats) {
 	total := len(c.W)
 	limit := total + 1
 	mt := memtable.NewMemTable()
+	pidx := probeIndex(c, v, tg)
+	type ks struct {
+		k   int
+		seq uint64
+	}
+	known := make(map[ks]bool, len(v.ents))
+	for i := range v.ents {
+		known[ks{v.ents[i].k, v.ents[i].seq}] = true
+	}
 
 	var counter atomic.Int64
 	var done, stop atomic.Bool
@@ -274,6 +368,7 @@ func runConc(c *CCase) (*CFail, cstats) {
 	overlap := make([]int, len(c.R))
 	overl := make([]int, len(c.R))
 	nact := make([]int, len(c.R))
+	nprobe := make([]int, len(c.R))
 
 	apply := func(i int) {
 		o := &c.W[i]
@@ -342,6 +437,45 @@ func runConc(c *CCase) (*CFail, cstats) {
 					if x := v.checkGet(&g); x != nil {
 						f = &CFail{V: x, Reader: ri, Act: a, Get: &g}
 					}
+				case "probe":
+					it := mt.NewIterator()
+					for j := 0; j < a.N && f == nil; j++ {
+						t := (a.T + j*a.S) % len(tg)
+						it.Seek(tg[t])
+						valid := it.Valid()
+						bad := false
+						req := firstRequired(pidx[t], lo)
+						var y obs
+						if valid {
+							y = obs{Key: it.Key(), Seq: it.SequenceNumber(), Del: it.IsTombstone()}
+							ki, ok := v.keyIdx[string(y.Key)]
+							switch {
+							case !ok || !known[ks{ki, y.Seq}] || bytes.Compare(y.Key, tg[t]) < 0:
+								bad = true
+							case req >= 0:
+								e := &v.ents[v.sorted[req]]
+								bad = ki > e.k || (ki == e.k && y.Seq < e.seq)
+							}
+						} else {
+							bad = req >= 0
+						}
+						nprobe[ri]++
+						if !bad {
+							continue
+						}
+						// let the general checker name the failure
+						o := scanObs{HasTarget: true, Target: tg[t], Via: "raw", Positioned: valid, Complete: !valid, Lo: lo, Mutable: mutable}
+						if valid {
+							y.Val = it.Value()
+							o.Y = []obs{y}
+						}
+						o.Hi = int(counter.Load()) + 1
+						vv := v.checkScan(&o)
+						if vv == nil {
+							vv = &viol{"probe/disagrees-with-checker", fmt.Sprintf("probe of target %x rejected, general checker accepts (harness defect)", tg[t])}
+						}
+						f = &CFail{V: vv, Reader: ri, Act: a, Scan: &o}
+					}
 				case "iter":
 					raw := mt.NewIterator()
 					var ad *memtable.IteratorAdapter
@@ -391,6 +525,7 @@ func runConc(c *CCase) (*CFail, cstats) {
 		}
 		st.overlapping += overl[ri]
 		st.actions += nact[ri]
+		st.probes += nprobe[ri]
 	}
 	return fail, st
 }
